@@ -4,6 +4,10 @@ pre-imported parent that never ran a session), followed by an instrumented probe
 Deliberately NO reset_process_state() anywhere in this file: the process-global state that leaks between the
 calls (helpers.CACHED_CONFIG, services.api.api.drivers, jesse.config.config, store.vars) is the object of study.
 
+Argument objects are shared between the calls of one process the way a researcher's script shares them (ArgPool:
+equal exchange + routes + warm-up -> the very same candles dict, warm-up dict and data_routes list); fingerprints are
+taken when an object is created and again at the end, so a change made by ANY call is seen.
+
 Abstract call description (exactly the record the TLA+ module Session.tla uses):
   {ex: "A"|"B"|"C", typ: "spot"|"fut", lev: "l1"|"l2"|"l5", mode: "cross"|"iso", fee: "f0"|"f1"|"f2",
    bal: "b0"|"b1", warm: "w0"|"w1"|"w2", rt: "r0"|"r1"|"r2", sim: "step"|"fast", out: <outcome>}
